@@ -122,9 +122,40 @@ func runBlocked(c blockedCase) (key, msg string, inconclusive bool) {
 		closeFn()
 		return "", "", true
 	}
-	p, st := vlib.Try(closeFn)
-	if p != nil {
-		return "C12/blocked-at-close/panic", fmt.Sprintf("Close panicked: %v\n%s", p, st), false
+	// Close normally returns at once. A Close that waits for the busy mailbox is given the open gate
+	// (nothing about the duration of Close is claimed); one that does not come back even then hangs.
+	type closeResult struct {
+		p  interface{}
+		st string
+	}
+	closeDone := make(chan closeResult, 1)
+	go func() {
+		p, st := vlib.Try(closeFn)
+		closeDone <- closeResult{p, st}
+	}()
+	var cr closeResult
+	select {
+	case cr = <-closeDone:
+	case <-time.After(100 * time.Millisecond):
+		released = true
+		close(gate)
+		select {
+		case cr = <-closeDone:
+		case <-time.After(vlib.StallBudget()):
+			if verdict, dump := vlib.ClassifyStall([]string{"c12.runBlocked"}); verdict == "blocked" {
+				return "C12/blocked-at-close/close-hangs", "Close() does not return although the mailbox is free to run:\n" + dump, false
+			}
+			return "", "", true
+		}
+	}
+	if cr.p != nil {
+		return "C12/blocked-at-close/panic", fmt.Sprintf("Close panicked: %v\n%s", cr.p, cr.st), false
+	}
+	// Close has returned: work submitted from now on is dropped without running
+	var lateWG sync.WaitGroup
+	for v := 1000; v < 1002; v++ {
+		lateWG.Add(1)
+		go blockedSender(send, v, &lateWG)
 	}
 	// the blocked senders must come back (their submission is dropped or was taken)
 	back := make(chan struct{})
@@ -135,8 +166,10 @@ func runBlocked(c blockedCase) (key, msg string, inconclusive bool) {
 		return "C12/blocked-at-close/sender-stuck", "senders blocked in Send/Post when Close was called never returned:\n" + vlib.AllStacks(), false
 	}
 	time.Sleep(200 * time.Microsecond) // anything running beside the parked mailbox shows up in the gauge now
-	released = true
-	close(gate)
+	if !released {
+		released = true
+		close(gate)
+	}
 	ok := vlib.WaitUntil(vlib.StallBudget(), func() bool {
 		if atomic.LoadInt32(&in) != 0 {
 			return false
@@ -158,6 +191,11 @@ func runBlocked(c blockedCase) (key, msg string, inconclusive bool) {
 	}
 	if len(gids) > 1 {
 		return "C12/blocked-at-close/goroutine", fmt.Sprintf("messages of one mailbox were processed on %d different goroutines %v (runs %v)", len(gids), gids, runs), false
+	}
+	for v := 1000; v < 1002; v++ {
+		if runs[v] > 0 {
+			return "C12/ran-after-close", fmt.Sprintf("message %d was submitted after Close() had returned (the mailbox still had a backlog then) and was processed", v), false
+		}
 	}
 	for v, n := range runs {
 		if n > 1 {
